@@ -74,6 +74,7 @@ def run(F, chk):
             else:
                 rb.info(key, b.where(bi), "not decided (length established by nom take(n)/the caller): " + why)
     pipe_close_rule(F, chk)
+    pipe_yield_rule(F, chk)
     # ---------------- R-C18-d / e ---------------------------------------------------
     rd = chk.rule("R-C18-d", "T3", "expect phase: Upgrade only on the Ok edge of parse_v2_header", floor=1)
     re_ = chk.rule("R-C18-e", "T12", "the parser's unconsumed remainder is not dropped on Upgrade", floor=1)
@@ -303,3 +304,45 @@ def pipe_close_rule(F, chk):
                 r.violation(key, b.where(arm), "the (%s, %s) arm can report `close` without consulting all pending-data evidence of the %s direction (%s): bytes still buffered toward a writable peer are lost and it sees a clean end-of-stream" % (fs, bs, "/".join(missing), ", ".join("+".join(DIRS[m]) for m in missing)))
             else:
                 r.ok(key, b.where(arm), "depends on %s%s" % (sorted(have) or "nothing", " returns %s" % sorted(map(str, consts)) if consts else ""), nontrivial=bool(need))
+
+
+def pipe_yield_rule(F, chk):
+    """R-C18-h: when the backend has hung up but bytes are still owed to a client whose socket is blocked, the pipe's
+    event loop must YIELD (leave the loop and wait for the next writable event) instead of spinning to the iteration cap
+    and closing - which would pass end-of-stream on with bytes undelivered.  The yield guard is
+    `backend.event.is_hup() && frontend.interest.is_writable() && !frontend.event.is_writable()`: the middle test has to
+    read the raw *interest* (what we still want to do); `interest & event` there makes the guard unsatisfiable."""
+    r = chk.rule("R-C18-h", "T5", "the pipe yields on back-pressure after a backend hang-up (the guard reads the raw write interest)", floor=1)
+    cands = [p for p in F.paths() if p.startswith("<sozu_lib::protocol::pipe::Pipe") and p.endswith("SessionState>::ready")]
+    if not r.require(cands, "<Pipe as SessionState>::ready not found"):
+        return
+    b = F.body(cands[0])
+    r.fn(b.path)
+    def field_chain(op):
+        l = op_local(op)
+        d = b.single_def(l) if l is not None else None
+        if d and d[2] == "assign" and d[3]["k"] in ("ref", "raw") and isinstance(d[3]["pl"], dict):
+            return [f for _, _, f in proj_fields(d[3]["pl"])]
+        return []
+    kinds = {"hup": [], "int": [], "ev": []}
+    for sb, f, t, atom in guards.bool_switches(b):
+        if atom[0] != "call" or f == t or not atom[2]["args"]:
+            continue
+        ch = field_chain(atom[2]["args"][0])
+        nm = atom[1].rsplit("::", 1)[-1]
+        if nm == "is_hup" and ch[-2:] == ["backend_readiness", "event"]:
+            kinds["hup"].append((sb, t))
+        if nm == "is_writable" and ch[-2:] == ["frontend_readiness", "interest"]:
+            kinds["int"].append((sb, t))
+        if nm == "is_writable" and ch[-2:] == ["frontend_readiness", "event"]:
+            kinds["ev"].append((sb, f))
+    key = "%s|yield on backend hup + blocked frontend" % b.path
+    ok = False
+    for sb, tgt in kinds["ev"]:
+        if kinds["hup"] and kinds["int"] and lib.guarded_by(b, tgt, kinds["hup"]) and lib.guarded_by(b, tgt, kinds["int"]):
+            ok = True
+    if ok:
+        r.ok(key, b.where(kinds["ev"][0][0]), "loop exit behind backend.event.is_hup() && frontend.interest.is_writable() && !frontend.event.is_writable()")
+    else:
+        missing = [k for k, v in (("backend_readiness.event.is_hup()", kinds["hup"]), ("frontend_readiness.interest.is_writable()", kinds["int"]), ("!frontend_readiness.event.is_writable()", kinds["ev"])) if not v]
+        r.violation(key, b.where(), "the back-pressure yield of the pipe loop is gone or can never fire (%s): with the backend closed and the client slow the loop spins to its cap and closes the session, truncating the stream" % ("missing test: " + ", ".join(missing) if missing else "the three tests do not guard one exit together"))
